@@ -20,7 +20,7 @@ func SelfTest(dir string) error {
 		{Name: []byte("b"), Kind: Blk, Perm: 0o660, Major: 8, Minor: 256, Sec: 9223372036, Nsec: 854775808},
 		{Name: []byte("e"), Kind: Dir, Perm: 0, Sec: 0, Nsec: 0},
 		{Name: []byte("z"), Kind: File, Perm: 0, Size: 0, Sec: MinSec, Nsec: 0},
-		{Name: []byte("p"), Kind: Fifo, Perm: 0o644, Sec: 5},
+		{Name: []byte("p"), Kind: Fifo, Perm: 0o644, Sec: 5, Nsec: 7, Epoch: true},
 	}}
 	want := Expand(spec)
 	if e := want.Kids[3]; e.Name != "e" || e.Sec != 0 || e.Nsec != 1 {
@@ -56,6 +56,29 @@ func SelfTest(dir string) error {
 	}
 	if d := got.Kids[2]; len(d.Xattrs) != 2 || d.Xattrs[0].Key != "user.a" || len(d.Xattrs[0].Val) != 0 || string(d.Xattrs[1].Val) != "\x00\x01\x00" || d.Sec != -1 {
 		return fmt.Errorf("snapshot of directory d is wrong: %+v", *d)
+	}
+
+	if p := got.Kids[4]; p.Name != "p" || !p.IsEpoch() || ShapeOf(got).EpochNodes != 1 {
+		return fmt.Errorf("a node asked to have the exact epoch as mtime reads back as %d.%09d", p.Sec, p.Nsec)
+	}
+	{ // SkipEpochMtime skips the epoch node's own mtime and nothing else
+		g := got.Clone()
+		g.Kids[4].Sec = 99
+		if d := Diff(want, g, DiffOptions{SkipEpochMtime: true}); len(d) != 0 {
+			return fmt.Errorf("Diff: SkipEpochMtime still reports %v", d)
+		}
+		if d := Diff(want, g, DiffOptions{}); len(d) != 1 || d[0].Path != "p" || d[0].Field != "mtime" {
+			return fmt.Errorf("Diff: changed mtime of the epoch node reported as %v", d)
+		}
+		g.Kids[3].Sec, g.Sec = 99, 99 // e (epoch+1ns) and the root are ordinary nodes
+		if d := Diff(want, g, DiffOptions{SkipEpochMtime: true}); len(d) != 2 {
+			return fmt.Errorf("Diff: SkipEpochMtime hides other nodes' mtimes: %v", d)
+		}
+		sh := ShapeOf(Expand(Spec{Sec: 5, Kids: []Spec{{Name: []byte("P"), Kind: Dir, Sec: 6, Kids: []Spec{
+			{Name: []byte("D"), Kind: Dir, Epoch: true, Kids: []Spec{{Name: []byte("f"), Kind: File}}}, {Name: []byte("z"), Kind: File}}}}}))
+		if sh.EpochDirThenSibling != 1 || sh.EpochNodes != 1 {
+			return fmt.Errorf("ShapeOf: epoch-directory-then-sibling shape not recognised: %+v", *sh)
+		}
 	}
 
 	// every single-field change is found, and named
